@@ -179,7 +179,7 @@ func newPublicKeyObj(ex *absint.Exec, st *absint.State, prog *load.Program, q *s
 	ip, ib := FieldIndex(prog, models.SececPkg, "PublicKey", "point"), FieldIndex(prog, models.SececPkg, "PublicKey", "pointBytes")
 	ex.StoreLeaf(st, ex.FieldPtr(pk, ip), pt, 0)
 	enc := absint.CatBytes(sym.ConstStr(sym.Bytes, "\x04"), models.ToBytes(sym.Fp, models.XCoord(q)), models.ToBytes(sym.Fp, models.YCoord(q)))
-	ex.StoreLeaf(st, ex.FieldPtr(pk, ib), ex.BytesToSlice(st, enc, "pointBytes"), 0)
+	storeBytesField(ex, st, pk, prog, models.SececPkg, "PublicKey", ib, enc, "pointBytes")
 	return pk
 }
 
@@ -199,6 +199,8 @@ func c07Options(c *Ctx, prog *load.Program) {
 	pr := func(tag string) parsed {
 		return parsed{sym.App(sym.Bool, tag+"_ok", sig), sym.App(sym.Fn, tag+"_r", sig), sym.App(sym.Fn, tag+"_s", sig), sym.App(sym.Int, tag+"_v", sig)}
 	}
+	// the cached encoding of an initialised key: 65 bytes (C10), whatever the representation of the field
+	qEnc := absint.SymBytes("*q.pointBytes", 65, 0)
 	// specification for one configuration of the options
 	specFor := func(enc *sym.Term, rejectMalleable *sym.Term, digestLen int64) *Formula {
 		lenOK := fConst(true)
@@ -221,7 +223,7 @@ func c07Options(c *Ctx, prog *load.Program) {
 			okT := sym.App(sym.Bool, "recover_pk_ok", symBytes("h"), sym.Canon(p.r), sym.Canon(p.s), p.v)
 			qT := sym.App(sym.Point, "recover_pk", symBytes("h"), sym.Canon(p.r), sym.Canon(p.s), p.v)
 			encQ := absint.CatBytes(sym.ConstStr(sym.Bytes, "\x04"), models.ToBytes(sym.Fp, models.XCoord(qT)), models.ToBytes(sym.Fp, models.YCoord(qT)))
-			same := sym.App(sym.Bool, "bytes_eq", symBytes("*q.pointBytes"), encQ)
+			same := sym.App(sym.Bool, "bytes_eq", qEnc, encQ)
 			return fAnd(FTerm(p.ok), lowS(p), FTerm(okT), FTerm(same))
 		}
 		var byEnc *Formula
@@ -236,6 +238,9 @@ func c07Options(c *Ctx, prog *load.Program) {
 	run := func(key string, optsVal func(ex *absint.Exec, st *absint.State) absint.Val, spec *Formula) {
 		var r *Run
 		r = RunFn(prog, set, name, &RunOpts{Args: named("q", "h", "sig", "opts"), Pre: func(ex *absint.Exec, st *absint.State, args []absint.Val) {
+			if kp, isPtr := args[0].(*absint.Ptr); isPtr {
+				storeBytesField(ex, st, kp, prog, models.SececPkg, "PublicKey", FieldIndex(prog, models.SececPkg, "PublicKey", "pointBytes"), qEnc, "pointBytes")
+			}
 			if v := optsVal(ex, st); v != nil {
 				args[3] = v
 			}
